@@ -40,7 +40,7 @@ $(BUILD)/lib-$(1)/%.o: $(VERIF_REPO)/reproc/src/%.c
 	$(CC) $$(CFLAGS_$(1)) -MMD -MP -c $$< -o $$@
 
 # interposable object: boundary functions renamed to vs_*
-$(BUILD)/lib-$(1)/reproc.o: $$(addprefix $(BUILD)/lib-$(1)/,$$(addsuffix .o,$(LIBNAMES))) $(SRC)/vsys/syms.map
+$(BUILD)/lib-$(1)/libreproc.o: $$(addprefix $(BUILD)/lib-$(1)/,$$(addsuffix .o,$(LIBNAMES))) $(SRC)/vsys/syms.map
 	ld -r -o $$@.raw $$(filter %.o,$$^)
 	objcopy --redefine-syms=$(SRC)/vsys/syms.map $$@.raw $$@
 	@nm -u $$@ | awk '{print $$$$2}' | grep -v -E '^(__asan|__ubsan|__tsan|__sanitizer|vs_|__errno_location|__assert_fail|__xpg_strerror_r|environ|stdin|stdout|stderr|memcpy|memset|memmove|strlen|strcpy|strchr|strcmp|abs|_GLOBAL_OFFSET_TABLE_|__stack_chk_fail)' | sed 's/^/verif: WARNING: library references un-interposed symbol: /' >&2 || true
@@ -100,9 +100,9 @@ HARNESS_OBJS := $(BUILD)/h/harness.o
 # standard engine (R / V / D): interposed library + vsys + puppet
 STD_PROPS := C01 C02 C03 C04 C05 C06 C07 C08 C09 C10 C11 C12 C13 C14 C15 C16 C17
 define STD_RULES
-$(BUILD)/props/$(1): $(BUILD)/props/$(1).o $(FWBUILD)/fw_main.o $(FWBUILD)/vsys.o $(HARNESS_OBJS) $(BUILD)/lib-san/reproc.o $(BUILD)/cxx/reproc.o | $(FWBUILD)/puppet
+$(BUILD)/props/$(1): $(BUILD)/props/$(1).o $(FWBUILD)/fw_main.o $(FWBUILD)/vsys.o $(HARNESS_OBJS) $(BUILD)/lib-san/libreproc.o $(BUILD)/cxx/reproc.o | $(FWBUILD)/puppet
 	$(CXX) $(SAN) -o $$@ $$^ -lrapidcheck -lpthread
-$(BUILD)/props/$(1).rel: $(BUILD)/props/$(1).o $(FWBUILD)/fw_main.o $(FWBUILD)/vsys.o $(HARNESS_OBJS) $(BUILD)/lib-rel/reproc.o $(BUILD)/cxx/reproc.o | $(FWBUILD)/puppet
+$(BUILD)/props/$(1).rel: $(BUILD)/props/$(1).o $(FWBUILD)/fw_main.o $(FWBUILD)/vsys.o $(HARNESS_OBJS) $(BUILD)/lib-rel/libreproc.o $(BUILD)/cxx/reproc.o | $(FWBUILD)/puppet
 	$(CXX) $(SAN) -o $$@ $$^ -lrapidcheck -lpthread
 endef
 $(foreach p,$(STD_PROPS),$(eval $(call STD_RULES,$(p))))
@@ -130,7 +130,7 @@ $(BUILD)/props/C20.o: $(SRC)/props/C20.cpp $(wildcard $(SRC)/common/*.hpp)
 $(FWBUILD)/vsys_mt.o: $(SRC)/vsys/vsys_mt.c
 	@mkdir -p $(dir $@)
 	$(CC) -g -O1 -fsanitize=thread -I$(SRC) -c $< -o $@
-$(BUILD)/props/C20: $(BUILD)/props/C20.o $(FWBUILD)/fw_main_tsan.o $(FWBUILD)/vsys_mt.o $(BUILD)/lib-tsan/reproc.o | $(FWBUILD)/puppet
+$(BUILD)/props/C20: $(BUILD)/props/C20.o $(FWBUILD)/fw_main_tsan.o $(FWBUILD)/vsys_mt.o $(BUILD)/lib-tsan/libreproc.o | $(FWBUILD)/puppet
 	$(CXX) -fsanitize=thread -o $@ $^ -lrapidcheck -lpthread
 
 prop-%: $(BUILD)/props/%
